@@ -172,7 +172,7 @@ class IntermediateCodeGen(AbstractCodeGen):
             if moduleCompliance:
                 self._complianceOids.append(outDict['oid'])
 
-    def genNumericOid(self, oid):
+    def genNumericOid(self, oid, _seen=()):
         numericOid = ()
 
         for part in oid:
@@ -182,13 +182,17 @@ class IntermediateCodeGen(AbstractCodeGen):
                     numericOid += (1,)
                     continue
 
+                if part in _seen:
+                    raise error.PySmiSemanticError(
+                        'circular OID definition through symbol "%s" in module "%s"' % (parent, module))
+
                 if module not in self.symbolTable:
                     # XXX do getname for possible future borrowed mibs
                     raise error.PySmiSemanticError('no module "%s" in symbolTable' % module)
 
                 if parent not in self.symbolTable[module]:
                     raise error.PySmiSemanticError('no symbol "%s" in module "%s"' % (parent, module))
-                numericOid += self.genNumericOid(self.symbolTable[module][parent]['oid'])
+                numericOid += self.genNumericOid(self.symbolTable[module][parent]['oid'], _seen + (part,))
 
             else:
                 numericOid += (part,)
